@@ -174,6 +174,10 @@ pub enum Ev {
     Call { name: usize, ctx: usize },
     /// two calls appended back to back (they overlap)
     Call2 { name: usize, ctx: usize },
+    /// the command server is stopped and started again on the same store
+    Restart,
+    /// restart, then a call (one step, so that depth-3 histories reach "define, redefine, restart, call")
+    RestartCall { name: usize, ctx: usize },
 }
 
 fn cname(i: usize) -> &'static str {
@@ -213,6 +217,19 @@ pub fn run_history(h: &[Ev]) -> (Vec<F>, String) {
                             fs.push(F { kind: "c19.invalid_define.meta".into(), msg: format!("{} step {}: {:?} ctx {}", label, step, e.meta, e.context_id) });
                         }
                     }
+                }
+            }
+            Ev::Restart | Ev::RestartCall { .. } => {
+                // let the calls issued so far finish: a restart in the middle of a call is C17's domain
+                for (cid, def, name, _ctx) in &calls {
+                    if def.is_some() {
+                        wait_terminal(&w, cname(*name), cid);
+                    }
+                }
+                w.restart_commands();
+                if let Ev::RestartCall { name, ctx } = ev {
+                    let c = w.append_c(&format!("{}.call", cname(*name)), ctxs[*ctx], None, None);
+                    calls.push((c.id, defs.get(&(*ctx, *name)).cloned(), *name, *ctx));
                 }
             }
             Ev::Call { name, ctx } | Ev::Call2 { name, ctx } => {
@@ -298,13 +315,21 @@ pub fn histories(depth: usize, thorough: bool) -> Vec<Vec<Ev>> {
             }
         }
     }
+    alphabet.push(Ev::Restart);
+    alphabet.push(Ev::RestartCall { name: 0, ctx: 0 });
+    if thorough {
+        alphabet.push(Ev::RestartCall { name: 0, ctx: 1 });
+    }
     let mut out = vec![];
     let mut level: Vec<Vec<Ev>> = vec![vec![]];
     for _ in 0..depth {
         let mut next = vec![];
         for h in &level {
             for e in &alphabet {
-                if h.is_empty() && matches!(e, Ev::Call { .. } | Ev::Call2 { .. }) {
+                if h.is_empty() && matches!(e, Ev::Call { .. } | Ev::Call2 { .. } | Ev::Restart | Ev::RestartCall { .. }) {
+                    continue;
+                }
+                if matches!(e, Ev::Restart) && matches!(h.last(), Some(Ev::Restart)) {
                     continue;
                 }
                 let mut n = h.clone();
@@ -312,8 +337,9 @@ pub fn histories(depth: usize, thorough: bool) -> Vec<Vec<Ev>> {
                 next.push(n);
             }
         }
-        // only histories that end with a call observe anything new
-        out.extend(next.iter().filter(|h| matches!(h.last(), Some(Ev::Call { .. }) | Some(Ev::Call2 { .. }) | Some(Ev::DefineInvalid { .. }))).cloned());
+        // only histories that end with a call observe anything new (a trailing restart is observed
+        // through the no-replay check: nothing may be executed twice)
+        out.extend(next.iter().filter(|h| matches!(h.last(), Some(Ev::Call { .. }) | Some(Ev::Call2 { .. }) | Some(Ev::DefineInvalid { .. }) | Some(Ev::Restart) | Some(Ev::RestartCall { .. }))).cloned());
         level = next;
     }
     out
@@ -364,7 +390,7 @@ pub fn run(tier: &str, report: &mut Report) {
     report.cov("distinct_outcomes", json!(outcomes.len()));
     report.cov("exhaustive", json!(true));
     report.cov("samples", json!([script(&progs[progs.len() / 3]), format!("{:?}", hs.get(hs.len() / 2))]));
-    report.cov("explanation", json!("(a) every command script of {8 output shapes: nothing, scalar, lists of 1-3 values of mixed types, range, lazy stream} x {explicit .append with colliding meta} x {eager runtime error} x {return_options none/suffix/ttl/ephemeral}: one call each, per-call oracle; (b) every history of define / invalid define / call / two overlapping calls over 2 names x 2 contexts up to the depth that ends in an observation: each call is served by the latest valid definition of its own context exactly once, results carry the call's id in their content (no mixing), a per-call env counter must read 0 (no leak), calls in a context without a definition produce nothing"));
+    report.cov("explanation", json!("(a) every command script of {8 output shapes: nothing, scalar, lists of 1-3 values of mixed types, range, lazy stream} x {explicit .append with colliding meta} x {eager runtime error} x {return_options none/suffix/ttl/ephemeral}: one call each, per-call oracle; (b) every history of define / invalid define / call / two overlapping calls / restart of the command server over 2 names x 2 contexts up to the depth that ends in an observation: each call is served by the latest valid definition of its own context exactly once, results carry the call's id in their content (no mixing), a per-call env counter must read 0 (no leak), calls in a context without a definition produce nothing"));
 }
 
 pub fn replay(v: &Value) -> i32 {
